@@ -137,6 +137,16 @@ inline void hash_ev(int tid, int kind, uint32_t obj)
 {
   uint64_t v = (uint64_t)(tid + 1) * 1000003ull + (uint64_t)kind * 10007ull + obj;
   S.hash     = (S.hash ^ v) * 0x100000001b3ull;
+  static const char *pt = getenv("VSIM_POINTTRACE");
+  if (pt)
+  {
+    static FILE *f = fopen(pt, "w");
+    if (f)
+    {
+      fprintf(f, "%d %d %u %llu\n", tid, kind, obj, (unsigned long long)S.calls);
+      fflush(f);
+    }
+  }
 }
 
 void mirror_decision(uint32_t idx, uint32_t v)
